@@ -147,8 +147,8 @@ Outcome run_threads(const Plan & plan, const RunCtx & ctx)
     std::string where;
     size_t g = txt.find("Location is global '");
     if (g != std::string::npos) { size_t e = txt.find('\'', g + 20); where = txt.substr(g + 20, e == std::string::npos ? 80 : e - (g + 20)); }
-    if (where.empty()) { size_t r = txt.find("/repo/"); if (r != std::string::npos) { size_t e = txt.find_first_of(" )\n", r); where = txt.substr(r, e - r); size_t c2 = where.find(':'); if (c2 != std::string::npos) { size_t c3 = where.find(':', c2 + 1); if (c3 != std::string::npos) where = where.substr(0, c3); } } }
-    bool in_sut = txt.find("/repo/") != std::string::npos;
+    if (where.empty()) { size_t r = txt.find(repo_dir() + "/"); if (r != std::string::npos) { size_t e = txt.find_first_of(" )\n", r); where = txt.substr(r, e - r); size_t c2 = where.find(':'); if (c2 != std::string::npos) { size_t c3 = where.find(':', c2 + 1); if (c3 != std::string::npos) where = where.substr(0, c3); } } }
+    bool in_sut = txt.find(repo_dir() + "/") != std::string::npos;
     size_t k = txt.find("WARNING: ThreadSanitizer: ");
     std::string kind = k == std::string::npos ? "report" : txt.substr(k + 26, txt.find_first_of("(\n", k + 26) - (k + 26));
     while (!kind.empty() && kind.back() == ' ') kind.pop_back();
